@@ -133,6 +133,16 @@ impl IndexerSyncService {
         }
     }
 
+    /// verif hook: one synchronous pass of `try_loop_sync` (catch up with the primary database,
+    /// then roll back / append until the indexer's tip is the main-chain tip)
+    #[cfg(feature = "verif-hooks")]
+    pub fn verif_try_loop_sync<I>(&self, indexer: I)
+    where
+        I: IndexerSync + Clone + Send + 'static,
+    {
+        self.try_loop_sync(indexer)
+    }
+
     fn try_loop_sync<I>(&self, indexer: I)
     where
         I: IndexerSync + Clone + Send + 'static,
